@@ -1,5 +1,6 @@
 import StatimeModel.Lemmas.Frames
 import StatimeModel.Lemmas.InstanceInv
+import StatimeModel.Generated.AnnounceCtor
 /-
 C11 — Announces advertise the instance's current view of the hierarchy.
 
@@ -272,5 +273,28 @@ theorem frames_keep_datasets (p p' : Port) (s s' : InstState) (m : Msg) (outs : 
   · obtain ⟨⟨q, o⟩, _, he⟩ := map_ok _ _ _ h; simp only [Prod.mk.injEq] at he; exact Or.inl he.2.1.symm
   · obtain ⟨⟨q, o⟩, _, he⟩ := map_ok _ _ _ h; simp only [Prod.mk.injEq] at he; exact Or.inl he.2.1.symm
   · simp only [Except.ok.injEq, Prod.mk.injEq] at h; exact Or.inl h.2.1.symm
+
+/-! ### the Announce constructor as translated from the source on this run
+(`translator/extract_announce.py` → `Generated/AnnounceCtor.lean`, interpreter `Lemmas/AnnounceGen.lean`) -/
+section Translated
+open Statime.AnnGen
+
+/-- **the Announce constructor translated from `Message::announce` on this run is the model's `msgAnnounce`**:
+every header flag and every body field, taken from the data set member the source names, for every instance state,
+port identity, sequence number and minor version -/
+theorem generated_announce_is_model (s : InstState) (pid : PortId) (seq minor : Nat) :
+    ∀ ft bt, Generated.announceFlagTable = some ft → Generated.announceBodyTable = some bt →
+      buildAnnounce ft bt s pid seq minor = some (msgAnnounce s pid seq minor) := by
+  intro ft bt hf hb
+  unfold Generated.announceFlagTable at hf
+  unfold Generated.announceBodyTable at hb
+  cases hf <;> cases hb
+  all_goals (
+    rfl)
+
+/-- `base_header` takes sdoId, domain, identity and sequence number from its arguments (when recognised) -/
+theorem generated_base_header_as_modelled : Generated.announceBaseHeaderAsModelled ≠ some false := by decide
+
+end Translated
 
 end Statime.C11
